@@ -19,7 +19,7 @@ from harness import kit, ser
 # machine cannot turn a slow call into a "timeout": normal calls need well under 2 s of CPU
 # (the largest symbolic FFT of the thorough tier), a call that exceeds the limit is looping.
 CPU_LIMIT_S = 20.0
-CPU_LIMIT_LOOPY_S = 0.5      # extended_euclidean on polynomials (microseconds when it returns)
+CPU_LIMIT_LOOPY_S = 0.25     # extended_euclidean on polynomials (microseconds when it returns)
 
 
 class _Timeout(BaseException):
